@@ -543,6 +543,12 @@ func (c *cronTicker) Start() <-chan time.Time {
 		for {
 			now := time.Now()
 			next := c.expr.Next(now)
+			if next.IsZero() {
+				// The schedule has no further occurrence (e.g. a year field in the past):
+				// there is nothing left to tick for, do not spin on the zero time.
+				<-c.closing
+				return
+			}
 			diff := next.Sub(now)
 			select {
 			case <-time.After(diff):
